@@ -168,6 +168,14 @@ struct C17 : public Driver {
                 continue;
             }
             const bool at = p.boolean("attr"); const std::string idsel = at ? "{../@id}" : "{@id}";
+            // position() as value: evaluated in a variable right after an instruction whose count pattern asks for position() in the sibling list, with
+            // no other expression in between (every location path evaluated in between would renew the execution context's idea of the position)
+            if (p.str("value") == "position()") {
+                const std::string v = "pv" + std::to_string(i);
+                s += "<xsl:variable name=\"" + v + "\"><xsl:number level=\"single\" count=\"*[position() &gt; 0]\"/>/<xsl:number value=\"position()\" format=\"1\"/>/<xsl:number value=\"position()\" format=\"" + p.str("token") + "\"/></xsl:variable>";
+                s += "<o f=\"s" + std::to_string(i) + "\" n=\"{@id}\"><xsl:value-of select=\"substring-before(substring-after($" + v + ", '/'), '/')\"/></o><o f=\"t" + std::to_string(i) + "\" n=\"{@id}\"><xsl:value-of select=\"substring-after(substring-after($" + v + ", '/'), '/')\"/></o>";
+                continue;
+            }
             if (at) s += "<xsl:for-each select=\"@k\">";      // the current node of xsl:number is an attribute
             s += "<o f=\"s" + std::to_string(i) + "\" n=\"" + idsel + "\"><xsl:number" + attrs + " format=\"1\"/></o>";
             s += "<o f=\"t" + std::to_string(i) + "\" n=\"" + idsel + "\"><xsl:number" + attrs + " format=\"" + p.str("token") + "\"/></o>";
